@@ -175,8 +175,8 @@ pub open spec fn fp_to_f_pre<const B: Word>(repr: Repr<B>) -> bool { fp_src_ok(r
 
 // ------------------------------------------------------------------------------------------------------------------
 // ASSUMED (f32 arithmetic is not modelled): the enclosure `EstimatedLog2::log2_bounds` is supposed to give and the meaning
-// of the two float tests of convert_to_binary_once (lowering rule D10 turns them into __f32_guard0 / __f32_guard1, declared in
-// unit float_to_prim_once).  Only the far-range shortcut depends on them; the correctly rounded path does not.
+// of the two float tests of convert_to_binary_once (lowering rule D10 turns the first into __f32_guard0, declared in unit
+// float_to_prim_once; the second, `log2_lb > 0.`, is a native f32 comparison read through ax_fp_gt_zero).  Only the far-range shortcut depends on them; the correctly rounded path does not.
 /// "2^f <= num / den" resp. "num / den <= 2^f" over the reals (den > 0)
 pub uninterp spec fn fp_est_lo(f: f32, num: int, den: int) -> bool;
 pub uninterp spec fn fp_est_hi(f: f32, num: int, den: int) -> bool;
@@ -194,6 +194,12 @@ pub proof fn ax_fp_est_gt(f: f32, k: nat, num: int, den: int)
 pub proof fn ax_fp_est_lt(f: f32, k: nat, num: int, den: int)
     requires fp_est_hi(f, num, den), fp_f32_lt(f, -(k as int)), den > 0
     ensures num * ipow(2, k) < den
+{}
+/// the core comparison `f > 0.` on f32 (Verus: gt_ensures) taken as the comparison of the real number with 0
+#[verifier::external_body]
+pub proof fn ax_fp_gt_zero(f: f32, z: f32, r: bool)
+    requires gt_ensures::<f32>(f, z, r), z.to_bits_spec() == 0
+    ensures r == fp_f32_gt(f, 0)
 {}
 /// f > k and j <= k  ==>  f > j
 #[verifier::external_body]
